@@ -680,3 +680,4 @@ MANIFEST = {
 }
 MANIFEST["text"] += " NumPy scalar and 0-d magnitudes format like the Python number; an empty spec formats exactly as the registry default_format given explicitly, for 10 default formats including '#'-only ones."
 MANIFEST["text"] += ' Units without a dimension (radian, count, percent, steradian) in 11 specs, and every canonical unit alone and over a second in 2 specs, under the three sort functions.'
+MANIFEST["text"] += ' The magnitude default applies alike under D, C, P and H (long and ~) for 5 default formats x 3 separate_format_defaults settings, quantities and measurements.'
